@@ -15,6 +15,9 @@ def scalar(rng, nulls=False, pool=None):
     return rng.choice(pool)
 
 
+VOCAB_KEYS = ['name', 'id', 'default', 'type', 'kind', 'value', 'key', 'items', 'enabled', 'path', 'names', 'nam', 'ID', 'spec', 'metadata']
+VOCAB_VALUES = ['name', 'id', 'default', 'value', 'key', 'true', 'false', 'null', 'svc', 'svc-a', 'svc-ab', 'e\u0301', '\U0001F600', 'Zo\u00eb', 'x' * 70, 0, -1, 1, 1000, 2**31, 2**53, 2**63 - 1, 0.1, 0.30000000000000004,
+                True, False, 'a', 'ab', 'abc', '', ' ', 'path/to/x', 'http://h:80/p?q=1', '100%', 'a.b', 'a,b']
 BIGKEYS = ['k%02d' % i for i in range(24)] + ['ключ', 'a-very-long-key-name-' + 'x' * 40, 'Key', 'KEY', 'z9', '_', 'k.dot', 'UPPER_lower-1']
 
 
@@ -24,6 +27,13 @@ def tree(rng, depth=3, fan=3, nulls=False, root=None, pool=None, keys=None, _top
     is reached; the size is capped at about 400 nodes."""
     keys = keys or KEYS
     budget = [400]
+    if _top and pool is None and rng.random() < 0.08:
+        # ordinary configuration vocabulary: common words as keys and as values, values equal to keys or to other values,
+        # prefixes of one another, strings spelling other types, unicode (combining, non-BMP), numeric edges
+        keys = VOCAB_KEYS
+        pool = VOCAB_VALUES
+        if rng.random() < 0.5:
+            nulls = nulls
     if _top and rng.random() < 0.04:
         mode = rng.choice(['deep', 'wide', 'longlist'])
         if mode == 'deep':
